@@ -20,11 +20,14 @@
                          float product may be n - epsilon and int() yields n - 1 (e.g. 49 * (1/49) < 1)
      "vresize_overshoot" video reader `resize=WxH` (aspect form): the "one side already equal" shortcuts (l.381-384)
                          scale by the *other* side's ratio even when that enlarges beyond the box (2x4 in 4x4 -> 4x8)
-   With Defects = {} the module is the intended design and TLC proves every law on every case; with a defect switched
-   on TLC exhibits the counterexample (Xform_d_*.cfg).  The vectors carry both the intended result and the result of the
-   code as it stands (CONSTANT AsIs), the conformance harness (vlib/c17.py) executes every case against the real code.
+   With Defects = {} the module is the intended design and TLC proves every law on every case (Xform_quick.cfg,
+   Xform_thorough.cfg); with "zero_dim" or "vresize_overshoot" switched on TLC exhibits the counterexample
+   (Xform_d_zero.cfg: InvNoFail, Xform_d_vresize.cfg: InvVResizeFit); with only "float_scale" on every law still holds
+   (Xform_d_float.cfg) - the clamp of the intended design also absorbs the float truncation.  The vectors carry both the
+   intended result and the result of the code as it stands (CONSTANT AsIs); the conformance harness (vlib/c17.py)
+   executes every case against the real code.
 
-   The state space is the set of cases (one initial state per case); the laws are invariants. *)
+   The state space is the set of cases (one state per case, see the end of the module); the laws are invariants. *)
 EXTENDS Integers, Sequences, FiniteSets, TLC, Json, IOUtils, SequencesExt
 
 CONSTANTS MaxDim,      \* image sides 1..MaxDim in the size cases
@@ -192,7 +195,7 @@ Apply(D, site, xf, img, j) ==
          [] xf.act = "box"      -> {Box(img, xf, j)}
          [] xf.act \in SizeActs -> {Resized(img, s) : s \in Sizes(D, site, xf, img.w, img.h)}
 
-(* T[k] = set of frames after the first k-1 .. transforms: Trace(..)[k] is the set after k transforms *)
+(* Trace(D, c)[k] = the set of frames the chain of case c may have produced after its first k transforms *)
 RECURSIVE TraceFrom(_, _, _, _, _)
 TraceFrom(D, site, xs, S, j) ==
   IF j > Len(xs) THEN <<>>
